@@ -99,13 +99,16 @@ def def_chain(fn, e, depth=4):
         if d >= depth:
             continue
         for y in walk(x):
-            if y.get("k") == "DeclRefExpr" and isinstance(y.get("ref"), dict) and y["ref"].get("dk") == "Var" and y["ref"].get("did") not in seen:
+            if y.get("k") == "DeclRefExpr" and isinstance(y.get("ref"), dict) and y["ref"].get("dk") in ("Var", "Binding") and y["ref"].get("did") not in seen:
                 seen.add(y["ref"]["did"])
                 if inits is None:
                     inits = {}
                     for v in walk(fn["body"]):
                         if v.get("k") == "Var" and isinstance(v.get("init"), dict):
                             inits.setdefault(v.get("did"), []).append(v["init"])
+                        if v.get("k") == "Decomposition" and isinstance(v.get("init"), dict):
+                            for b in v.get("bindings", []):
+                                inits.setdefault(b.get("did"), []).append(v["init"])
                 for i in inits.get(y["ref"]["did"], []):
                     todo.append((i, d + 1))
 
@@ -762,6 +765,22 @@ class Program:
         if r is None and required:
             raise AnalysisBroken("anchor class %s not found in the analysed program" % qn)
         return r
+
+    def fully_inlined(self, fn):
+        """fn did not exist at the reference tree (a helper extracted by a later change) and every call of it was inlined into
+        its callers by the normaliser: the rules see its body at the call sites and need not look at the definition itself."""
+        if self.inventory is None or fn.get("qn") in self.inventory or fn.get("pseudo"):
+            return False
+        cache = getattr(self, "_called_keys", None)
+        if cache is None:
+            cache = set()
+            for g in self.functions.values():
+                if isinstance(g.get("body"), dict):
+                    for n in walk(g["body"]):
+                        if n.get("ckey"):
+                            cache.add(n["ckey"])
+            self._called_keys = cache
+        return fn.get("key") not in cache
 
     def with_new_helpers(self, fn):
         """fn followed by the repository functions that did not exist at the reference tree (reference_functions.txt) and are
